@@ -85,6 +85,11 @@ fn positions(cx: &mut Cx, lo: usize, hi: usize) -> Vec<usize> {
     if hi - lo <= 320 {
         return (lo..=hi).collect();
     }
+    if hi - lo > 1500 {
+        // beyond 2048 letters every search costs several million cells: both ends and the middle only
+        cx.count("words of more than 2048 letters (positions sampled)");
+        return vec![lo, lo + 2, (lo + hi) / 2, hi - 1, hi];
+    }
     let mut v = vec![lo, lo + 1, lo + 2, lo + (hi - lo) / 5, (lo + hi) / 2, hi - 2, hi - 1, hi];
     for p in [1023usize, 1024, 1025].iter() {
         if *p >= lo && *p <= hi {
@@ -671,7 +676,12 @@ impl Prop for Finds {
                     // a title with a word of more than 1024 letters, or two words whose run-together spelling passes 1024
                     let alpha = gen::lower_alphabet(lang);
                     let t = if cx.rng.chance(1, 2) {
-                        format!("{} {}", gen::any_word(&mut cx.rng, lang), gen::rand_word(&mut cx.rng, &alpha, 1025, 1300))
+                        // (one in three beyond 2048 letters)
+                        if cx.rng.chance(1, 3) {
+                            format!("{} {}", gen::any_word(&mut cx.rng, lang), gen::rand_word(&mut cx.rng, &alpha, 2049, 2200))
+                        } else {
+                            format!("{} {}", gen::any_word(&mut cx.rng, lang), gen::rand_word(&mut cx.rng, &alpha, 1025, 1300))
+                        }
                     } else {
                         format!("{} {}", gen::rand_word(&mut cx.rng, &alpha, 500, 640), gen::rand_word(&mut cx.rng, &alpha, 520, 640))
                     };
